@@ -61,7 +61,9 @@ let rec drop n l = if n <= 0 then l else match l with [] -> [] | _ :: r -> drop 
    (2)+(3) the layout-free token sequence is exactly what the declaration dictates: synopsis tokens in any order
            of the synopsis entries, then about text, then groups in creation order with each option block once, in
            declaration order, spelling + placeholder + description + environment hint + default, no word lost or reordered;
-   (4) the width rule. *)
+   (4) the STRICT width rule (UsageSpec.strip_ok): a line wider than max_width must END with an unbreakable word, and the line
+       without that word and its blank is judged again, down to a beginning of at most max_width columns (or a developer-supplied line /
+       the pre-existing left column). *)
 let oracle case obs =
   match case, words obs with
   | ("U" :: _), ["T"; h] ->
